@@ -1594,7 +1594,11 @@ def remove_redundant_transpose_pairs_ir(graph: ir.Graph) -> None:
                 for idx, iv in enumerate(ins):
                     if iv in trans_in_map:
                         node.replace_input_with(idx, trans_in_map[iv])
-                _refresh_elementwise_output_shape(node)
+            # Refresh in graph (producer-before-consumer) order: `elem_nodes` is a
+            # set, and a consumer refreshed first would copy a stale shape.
+            for node in nodes:
+                if node in elem_nodes:
+                    _refresh_elementwise_output_shape(node)
 
             # Remove inverse transposes on outputs of the DAG.
             for t_out_node in output_transposes:
